@@ -5,6 +5,10 @@ V = os.path.dirname(os.path.dirname(os.path.abspath(__file__)))
 props = [json.loads(l) for l in open(os.path.join(V, "properties.jsonl"))]
 
 CLAIMED = {
+ "C09": dict(
+  technique="rapid-generated multi-file workspaces rendered from the model; references compared as sets with the renderer's occurrence table; rename judged by applying the WorkspaceEdit with a reference edit applier and comparing whole file texts",
+  text="Workspaces of 1..4 journals (shared name pools, include graph with diamonds and unreachable siblings) are written to disk; the server runs with or without a workspace root and the request comes from the root or an included file, optionally with an unsaved edit in the requesting buffer. For every posting account, posting commodity and payee under the cursor the returned locations must be exactly the occurrences in scope (postings, costs, assertions, P/D/commodity/account directives; declarations present iff asked), each attributed to the file that contains it, without duplicates. Rename edits are applied to every file text; the result must equal the texts with exactly the occurrence spans replaced by the new name.",
+  note="Scope = include tree of the requesting file without a root, the root journal's tree with one; requests come from files inside that tree. Only the requesting file carries unsaved edits. The D directive's symbol may count as declaration or use. Open finding C09-F3 (symbol inside a 'format' subdirective) is excluded from the main campaign by not generating that directive form."),
  "C08": dict(
   technique="rapid-generated journals from the model; every cursor position probed; reflective walker validates every Position/Range/Location/TextEdit/FoldingRange against a UTF-16 reference buffer; renderer spans decide 'on target'",
   text="Journals rich in non-ASCII/non-BMP text are rendered from the model with every lexeme span recorded. All position-carrying features (diagnostics, hover, definition, references, prepareRename, rename, completion and inline-completion edits at every cursor column; document and workspace symbols, links, folds) are requested and every position-bearing field, found reflectively, must lie inside the document with start<=end, in UTF-16 units, never inside a surrogate pair. Hover / prepareRename / references / rename / workspace-symbol / link / undeclared-commodity ranges must equal the span of the lexeme concerned; folds and outline symbols must be pairwise disjoint or nested and a transaction's fold must end inside its own entry.",
